@@ -72,12 +72,15 @@ def lean_strip_comments(src):
     return re.sub(r'--[^\n]*', '', src)
 
 
-def prop_theorems(pid):
-    """theorem names declared in Props/<pid>.lean (fully qualified)."""
-    src = lean_strip_comments(open(os.path.join(LEAN, 'Swiftness', 'Props', f'{pid}.lean')).read())
-    ns = re.search(r'^namespace\s+(\S+)', src, re.M)
-    pre = ns.group(1) + '.' if ns else ''
-    return [pre + m for m in re.findall(r'^theorem\s+(\S+)', src, re.M)]
+def prop_theorems(pid, files=None):
+    """theorem names declared in Props/<f>.lean for f in files (fully qualified)."""
+    out = []
+    for f in (files or [pid]):
+        src = lean_strip_comments(open(os.path.join(LEAN, 'Swiftness', 'Props', f'{f}.lean')).read())
+        ns = re.search(r'^namespace\s+(\S+)', src, re.M)
+        pre = ns.group(1) + '.' if ns else ''
+        out += [pre + m for m in re.findall(r'^theorem\s+(\S+)', src, re.M)]
+    return out
 
 
 def lean_sources_of(modules):
@@ -105,12 +108,13 @@ def lake_build(targets, timeout=3600):
     return r.stdout
 
 
-def audit(pid):
-    """grep for forbidden constructs and `#print axioms` for every theorem of Props/<pid>.lean"""
-    thms = prop_theorems(pid)
+def audit(pid, props_files=None):
+    """grep for forbidden constructs and `#print axioms` for every theorem of the property's Props files"""
+    props_files = props_files or [pid]
+    thms = prop_theorems(pid, props_files)
     if not thms:
         raise Broken('audit', f'no theorems found in Props/{pid}.lean')
-    files = lean_sources_of([f'Swiftness.Props.{pid}'])
+    files = lean_sources_of([f'Swiftness.Props.{f}' for f in props_files])
     for m, path in files.items():
         hit = FORBIDDEN.search(lean_strip_comments(open(path).read()))
         if hit:
@@ -118,7 +122,8 @@ def audit(pid):
     os.makedirs(os.path.join(CACHE, 'audit'), exist_ok=True)
     f = os.path.join(CACHE, 'audit', f'{pid}.lean')
     with open(f, 'w') as fh:
-        fh.write(f'import Swiftness.Props.{pid}\n')
+        for pf in props_files:
+            fh.write(f'import Swiftness.Props.{pf}\n')
         for t in thms:
             fh.write(f'#print axioms {t}\n')
     r = sh(['lake', 'env', 'lean', f], cwd=LEAN, timeout=1800)
